@@ -13,7 +13,7 @@ from .. import env, runner, universe, tasks, hooks
 from ..report import Report
 from ..runner import Lost
 from ..relational import optimize_plain, outcome_canon, dumps
-from ..run import make_optimizer
+from ..run import make_optimizer, canon
 
 SEEDS = [0, 1, 42, 2 ** 31 - 1, 2 ** 32 - 1]
 _PV_DIR = os.path.join(env.REPO, "pyvolutionary") + os.sep
@@ -108,9 +108,16 @@ def one_run(case):
         except Exception as e:      # the documented Task(seed=<int>) must be constructible
             return {"status": "exc", "exc": type(e).__name__, "func": "Task(seed)"}
         st, payload = optimize_plain(opt, task, mode="serial")
+        dg = digest_outcome(outcome_canon(st, payload))
+        if st == "ok":
+            # the decoded best solution is part of what a user sees of a run (label order must not depend on the process)
+            try:
+                dg["best"] += hashlib.sha1(dumps(canon(task.transform_solution(payload.best_solution.position))).encode()).hexdigest()[:8]
+            except Exception as e:
+                dg["best"] += "!" + type(e).__name__
     finally:
         tasks.unregister_run(rid)
-    return digest_outcome(outcome_canon(st, payload))
+    return dg
 
 
 def make_case(seed, k, variant=None):
